@@ -38,6 +38,11 @@ type FrameCase struct {
 	// Depths: recursion depth of each call in order; -1 = without bound (must end in stack overflow)
 	Depths []int `json:"depths"`
 	Fresh  bool  `json:"fresh"` // a fresh api.Function per call (initial small stack) or the same one
+	// Bottom: the big frame (locals, argument area) exists only at the bottom of the recursion; the
+	// recursive function itself has a small frame of Small live i64 locals. The big frame is then
+	// entered on a stack filled to a drawn level by small frames.
+	Bottom bool `json:"bottom,omitempty"`
+	Small  int  `json:"small,omitempty"`
 }
 
 func frameConst(i int) uint64 { return uint64(i)*0x0101010101 + 0x7f00000000000001 }
@@ -85,6 +90,48 @@ func buildFrames(c *FrameCase) []byte {
 		mb.Raw(e.OpI64Add)
 	}
 	many := m.AddFunc(params, []byte{e.I64}, nil, mb.Bytes())
+	if c.Bottom {
+		// (func $big (result i64)  l[i] = frameConst(i); mark; acc = many(..); return acc + sum l[i])
+		// (func $rec (param $n i32) (result i64)
+		//    s[j] = n + j; r = n == 0 ? big() : rec(n-1); return r + sum s[j])
+		big, rec := many+1, many+2
+		b := e.NewB()
+		acc := uint32(c.Locals)
+		for i := 1; i <= c.Locals; i++ {
+			b.I64Const(int64(frameConst(i))).LocalSet(uint32(i - 1))
+		}
+		b.Call(mark)
+		pushArgs(b, c.Params, pt)
+		b.Call(many).LocalSet(acc)
+		b.LocalGet(acc)
+		for i := 1; i <= c.Locals; i++ {
+			b.LocalGet(uint32(i - 1)).Raw(e.OpI64Add)
+		}
+		locals := make([]byte, c.Locals+1)
+		for i := range locals {
+			locals[i] = e.I64
+		}
+		m.AddFunc(nil, []byte{e.I64}, locals, b.Bytes())
+		b = e.NewB()
+		racc := uint32(c.Small + 1)
+		for j := 1; j <= c.Small; j++ {
+			b.LocalGet(0).Raw(e.OpI64ExtendI32U).I64Const(int64(j)).Raw(e.OpI64Add).LocalSet(uint32(j))
+		}
+		b.LocalGet(0).If(e.I64).LocalGet(0).I32Const(1).Raw(e.OpI32Sub).Call(rec).Else().Call(big).End().LocalSet(racc)
+		b.LocalGet(racc)
+		for j := 1; j <= c.Small; j++ {
+			b.LocalGet(uint32(j)).Raw(e.OpI64Add)
+		}
+		locals = make([]byte, c.Small+1)
+		for i := range locals {
+			locals[i] = e.I64
+		}
+		if idx := m.AddFunc([]byte{e.I32}, []byte{e.I64}, locals, b.Bytes()); idx != rec {
+			panic("index plan")
+		}
+		m.ExportFunc("rec", rec)
+		return m.Encode()
+	}
 	rec := many + 1
 	b := e.NewB()
 	acc := uint32(c.Locals + 1)
@@ -92,16 +139,7 @@ func buildFrames(c *FrameCase) []byte {
 		b.LocalGet(0).Raw(e.OpI64ExtendI32U).I64Const(int64(frameConst(i))).Raw(e.OpI64Add).LocalSet(uint32(i))
 	}
 	b.Call(mark)
-	for j := 1; j <= c.Params; j++ {
-		switch pt {
-		case e.F64:
-			b.F64Const(uint64(j))
-		case e.V128:
-			b.V128Const(uint64(j), 0xeeeeeeeeeeeeeeee)
-		default:
-			b.I64Const(int64(j))
-		}
-	}
+	pushArgs(b, c.Params, pt)
 	b.Call(many).LocalSet(acc)
 	b.LocalGet(0).If()
 	b.LocalGet(0).I32Const(1).Raw(e.OpI32Sub).Call(rec).LocalGet(acc).Raw(e.OpI64Add).LocalSet(acc)
@@ -121,6 +159,19 @@ func buildFrames(c *FrameCase) []byte {
 	return m.Encode()
 }
 
+func pushArgs(b *e.B, n int, pt byte) {
+	for j := 1; j <= n; j++ {
+		switch pt {
+		case e.F64:
+			b.F64Const(uint64(j))
+		case e.V128:
+			b.V128Const(uint64(j), 0xeeeeeeeeeeeeeeee)
+		default:
+			b.I64Const(int64(j))
+		}
+	}
+}
+
 func framesExpected(c *FrameCase, n uint32) (ret uint64) {
 	var manyRes uint64
 	for _, i := range manyIdx(c.Params) {
@@ -129,6 +180,13 @@ func framesExpected(c *FrameCase, n uint32) (ret uint64) {
 	var consts uint64
 	for i := 1; i <= c.Locals; i++ {
 		consts += frameConst(i)
+	}
+	if c.Bottom {
+		ret = consts + manyRes
+		for k := uint64(0); k <= uint64(n); k++ {
+			ret += uint64(c.Small)*k + uint64(c.Small*(c.Small+1)/2)
+		}
+		return ret
 	}
 	for ; ; n-- {
 		ret += consts + uint64(c.Locals)*uint64(n) + manyRes
@@ -142,7 +200,56 @@ const canaryVal = 0xa5a5a5a5a5a5a5a5
 
 var canarySizes = []int{2 << 10, 4 << 10, 8 << 10, 16 << 10} // in uint64: 16, 32, 64, 128 KiB
 
-type canaries struct{ blocks [][]uint64 }
+type canaries struct {
+	blocks [][]uint64
+	seeded [][]byte // blocks with a freed hole of the same size class right above each of them
+}
+
+// holeSizes: the small-object size classes from 8 KiB up (a grown stack is a []byte of some such
+// size, and within a size class objects are neighbours) and some large-object sizes.
+var holeSizes = []int{8192, 9472, 9728, 10240, 10880, 12288, 13568, 14336, 16384, 18432, 19072, 20480, 21760, 24576, 27264, 28672, 32768,
+	40 << 10, 48 << 10, 64 << 10, 80 << 10, 96 << 10, 128 << 10, 160 << 10}
+
+// seed fills the heap with blocks of known content of the sizes stacks get while growing and
+// frees every other one: a stack that is allocated into one of the holes has such a block right
+// below it. Must be followed by a collection (the caller runs one before switching it off).
+func (cs *canaries) seed() {
+	for _, size := range holeSizes {
+		var blocks [][]byte
+		for i := 0; i < 12; i++ {
+			b := make([]byte, size)
+			for j := range b {
+				b[j] = 0xa5
+			}
+			blocks = append(blocks, b)
+		}
+		for i := 0; i < len(blocks); i += 2 {
+			cs.seeded = append(cs.seeded, blocks[i])
+		}
+	}
+}
+
+var canaryRef = func() []byte {
+	b := make([]byte, 160<<10)
+	for i := range b {
+		b[i] = 0xa5
+	}
+	return b
+}()
+
+func (cs *canaries) checkSeeded() string {
+	for _, b := range cs.seeded {
+		if string(b) == string(canaryRef[:len(b)]) {
+			continue
+		}
+		for j, v := range b {
+			if v != 0xa5 {
+				return fmt.Sprintf("Go heap memory outside of the call engine's stack was overwritten: byte %d (%d before the end) of a %d byte block is %#x", j, len(b)-j, len(b), v)
+			}
+		}
+	}
+	return ""
+}
 
 func (cs *canaries) add(n int) {
 	for i := 0; i < n; i++ {
@@ -213,9 +320,11 @@ func runFrames(c *FrameCase) (msg string) {
 	if err != nil {
 		return "harness: " + err.Error()
 	}
+	cs.seed()
+	runtime.GC()
 	runtime.GC()
 	defer func() {
-		cs.blocks = nil
+		cs.blocks, cs.seeded = nil, nil
 		runtime.GC()
 	}()
 	defer debug.SetGCPercent(debug.SetGCPercent(-1))
@@ -239,6 +348,9 @@ func runFrames(c *FrameCase) (msg string) {
 			res, cerr = f.Call(ctx, uint64(n))
 		}()
 		where := fmt.Sprintf("call %d, rec(depth %d) with %d live i64 locals and a callee taking %d %s parameters on %s", k, d, c.Locals, c.Params, c.PType, c.Engine)
+		if c.Bottom {
+			where = fmt.Sprintf("call %d, %d nested frames of %d live i64 locals and then a function with %d live i64 locals calling a callee with %d %s parameters, on %s", k, d+1, c.Small, c.Locals, c.Params, c.PType, c.Engine)
+		}
 		if escaped != nil {
 			return fmt.Sprintf("%s: a panic escaped api.Function.Call: %v", where, escaped)
 		}
@@ -258,6 +370,9 @@ func runFrames(c *FrameCase) (msg string) {
 			}
 		}
 		if d := cs.check(); d != "" {
+			return where + ": " + d
+		}
+		if d := cs.checkSeeded(); d != "" {
 			return where + ": " + d
 		}
 	}
@@ -281,6 +396,17 @@ func genFrames(t *rapid.T) *FrameCase {
 	}
 	c.PType = rapid.SampledFrom([]string{"i64", "f64", "v128", "v128"}).Draw(t, "ptype")
 	c.Fresh = rapid.Bool().Draw(t, "fresh")
+	if rapid.IntRange(0, 2).Draw(t, "bottom") == 0 {
+		// the big frame below a drawn number of small frames: a sweep over the fill level of the
+		// stack at which the big frame arrives, each time on a fresh function object
+		c.Bottom, c.Fresh = true, rapid.IntRange(0, 4).Draw(t, "bottom-fresh") != 0
+		c.Small = rapid.SampledFrom([]int{0, 0, 1, 3, 8}).Draw(t, "small-locals")
+		nd := rapid.IntRange(20, 60).Draw(t, "ncalls")
+		for i := 0; i < nd; i++ {
+			c.Depths = append(c.Depths, rapid.IntRange(0, 900).Draw(t, "fill"))
+		}
+		return c
+	}
 	n := rapid.IntRange(2, 8).Draw(t, "ncalls")
 	unbounded := false
 	for i := 0; i < n; i++ {
@@ -319,6 +445,9 @@ func TestFrames(t *testing.T) {
 			}
 		}
 		lbls := []string{"frames:" + c.Engine, "frames:ptype:" + c.PType}
+		if c.Bottom {
+			lbls = append(lbls, "frames:big-frame-below-small-frames")
+		}
 		if c.Locals >= 1000 && c.Params >= 200 {
 			lbls = append(lbls, "frames:big-frame-and-big-argument-area")
 		}
